@@ -6,9 +6,11 @@ Input lines (doubles as 16 hex digits of the bit pattern, converted to `Rat` exa
   problem                                   start a new problem
   opts <tol> <mineral_water> <water_unc> <carbon> <ialk> <icarb|-1> <range>
   soln <water> <phunc> <dalkdph> <dalkdc> <T_0> … <T_ne-1>
-  elt <isE> <isAlkM> <alkName> <zalk> <unc_0> …
-  phase <constr> <force> <alk> (<row> <tokcoef> <mastercoef>)*
-  redox <coef> <alk> <salk> (<row> <tokcoef>)*
+  master <name> <coef> <isH+> <isH2O>        one line per master species of the database
+  elt <name> <isE> <isAlkM> <alkName> <zalk> <unc_0> …
+  phase <constr> <force> <alk> (<secondary master name> <primary master name> <tokcoef>)*   raw reaction tokens of rxn_s
+  redox <coef> <alk> <salk> (<secondary> <primary> <tokcoef>)*                              raw tokens of rxn_primary
+  sat <t> <mask> X <x…>                      → SAT line (satB, zeroOutsideB)
   matrix                                    → ROW lines (sparse, dense column index) and a DELTA line
   check <t> X <x…> MIN <…> MAX <…>          → CHECK line (checkModel and the failing clauses)
   search <nph> <nsol> <minimal> <range> <forced> <feas:nz>*   → SEARCH line
@@ -48,14 +50,13 @@ def intOf (s : String) : Int := s.toInt?.getD 0
 
 structure PState where
   p : Problem := default
-  ptoks : List (Int × Bool × Rat × List (Int × Rat × Rat)) := []   -- phases as read (constr, force, alk, tokens), reversed
-  rtoks : List (Rat × Rat × Rat × List (Int × Rat)) := []          -- redox as read, reversed
+  ptoks : List (Int × Bool × Rat × List (String × String × Rat)) := []   -- phases as read (constr, force, alk, raw tokens), reversed
+  rtoks : List (Rat × Rat × Rat × List (String × String × Rat)) := []    -- redox as read, reversed
+  names : List String := []                                              -- element-row names
+  masters : List MasterInfo := []
 
-def triples : List String → List (Int × Rat × Rat)
-  | a :: b :: c :: rest => (intOf a, ratOfHex b, ratOfHex c) :: triples rest
-  | _ => []
-def pairs : List String → List (Int × Rat)
-  | a :: b :: rest => (intOf a, ratOfHex b) :: pairs rest
+def rawTokens : List String → List (String × String × Rat)
+  | a :: b :: c :: rest => ((unhexStr a).getD "", (unhexStr b).getD "", ratOfHex c) :: rawTokens rest
   | _ => []
 
 /-- finish the problem: phases / redox need `ne` and `iAlk` -/
@@ -63,12 +64,16 @@ def PState.problem (s : PState) : Problem :=
   let p := s.p
   let ne := p.elts.length
   { p with
-    phases := s.ptoks.reverse.map fun (c, f, alk, toks) => Phase.ofTokens ne p.iAlk toks alk c f
-    redox := s.rtoks.reverse.map fun (coef, alk, salk, toks) => Redox.ofTokens ne p.iAlk toks coef alk salk }
+    rowNames := s.names
+    phases := s.ptoks.reverse.map fun (c, f, alk, toks) =>
+      Phase.ofTokens ne p.iAlk (toks.map fun (sec, prim, cf) =>
+        let r := resolveToken s.names s.masters sec prim; (r.1, cf, r.2)) alk c f
+    redox := s.rtoks.reverse.map fun (coef, alk, salk, toks) =>
+      Redox.ofTokens ne p.iAlk (toks.map fun (sec, prim, cf) => ((resolveToken s.names s.masters sec prim).1, cf)) coef alk salk }
 
 def showRow (p : Problem) (r : Row) : String :=
   let kind := match r.kind with | .opt => "opt" | .eq => "eq" | .le => "le"
-  let n := p.colIndex Var.water + 1
+  let n := p.ncol
   let dense : Array Rat := r.coeffs.foldl (fun a vc =>
     let c := p.colIndex vc.1
     if c < a.size then a.set! c (a.getD c 0 + vc.2) else a) (Array.replicate n 0)
@@ -115,27 +120,45 @@ def handle (s : PState) (line : String) : PState × List String :=
   | "soln" :: w :: pu :: dp :: dc :: ts =>
     ({ s with p := { s.p with solns := s.p.solns ++ [{ totals := ts.map ratOfHex, water := ratOfHex w, phUnc := ratOfHex pu,
                                                         dalkDph := ratOfHex dp, dalkDc := ratOfHex dc }] } }, [])
-  | "elt" :: isE :: isA :: an :: z :: us =>
-    ({ s with p := { s.p with elts := s.p.elts ++ [{ isE := isE != "0", isAlkM := isA != "0", alkName := an != "0",
-                                                      zalk := ratOfHex z, unc := us.map ratOfHex }] } }, [])
-  | "phase" :: c :: f :: alk :: toks => ({ s with ptoks := (intOf c, f != "0", ratOfHex alk, triples toks) :: s.ptoks }, [])
+  | ["master", nm, coef, isH, isW] =>
+    ({ s with masters := s.masters ++ [{ name := (unhexStr nm).getD "", coef := ratOfHex coef, isH := isH != "0", isH2O := isW != "0" }] }, [])
+  | "elt" :: nm :: isE :: isA :: an :: z :: us =>
+    let el : Elt := { isE := isE != "0", isAlkM := isA != "0", alkName := an != "0", zalk := ratOfHex z, unc := us.map ratOfHex }
+    ({ s with names := s.names ++ [(unhexStr nm).getD ""], p := { s.p with elts := s.p.elts ++ [el] } }, [])
+  | ["isoelt", nm, pr, num, ho] =>
+    ({ s with p := { s.p with isos := s.p.isos ++ [{ name := (unhexStr nm).getD "", prim := (unhexStr pr).getD "", number := ratOfHex num, isHO := ho != "0" }] } }, [])
+  | ["isounk", ms, num] =>
+    ({ s with p := { s.p with isoUnk := s.p.isoUnk ++ [{ master := (unhexStr ms).getD "", number := ratOfHex num }] } }, [])
+  | ["soliso", q, ms, pr, num, tot, ratio, xu] =>
+    let si : SolIso := { master := (unhexStr ms).getD "", prim := (unhexStr pr).getD "", number := ratOfHex num, total := ratOfHex tot,
+                         ratio := ratOfHex ratio, xunc := ratOfHex xu }
+    let qi := natOf q
+    let cur := s.p.solIso ++ List.replicate (qi + 1 - s.p.solIso.length) []
+    ({ s with p := { s.p with solIso := cur.set qi (cur.getD qi [] ++ [si]) } }, [])
+  | ["phiso", i, nm, pr, num, ratio, coef, unc] =>
+    let pi : PhIso := { name := (unhexStr nm).getD "", prim := (unhexStr pr).getD "", number := ratOfHex num, ratio := ratOfHex ratio,
+                        coef := ratOfHex coef, unc := ratOfHex unc }
+    let ii := natOf i
+    let cur := s.p.phIso ++ List.replicate (ii + 1 - s.p.phIso.length) []
+    ({ s with p := { s.p with phIso := cur.set ii (cur.getD ii [] ++ [pi]) } }, [])
+  | "phase" :: c :: f :: alk :: toks => ({ s with ptoks := (intOf c, f != "0", ratOfHex alk, rawTokens toks) :: s.ptoks }, [])
   | "redox" :: coef :: alk :: salk :: toks =>
-    ({ s with rtoks := (ratOfHex coef, ratOfHex alk, ratOfHex salk, pairs toks) :: s.rtoks }, [])
+    ({ s with rtoks := (ratOfHex coef, ratOfHex alk, ratOfHex salk, rawTokens toks) :: s.rtoks }, [])
   | ["matrix"] =>
     let p := s.problem
     let rows := p.setupMatrix.map (showRow p)
     let delta := "DELTA " ++ " ".intercalate (p.vars.map fun v => toString (p.signOf v))
-    (s, rows ++ [delta, s!"DIMS ns {p.ns} ne {p.ne} np {p.np} nr {p.nr} ncol {p.colIndex Var.water + 1} nopt {p.countOptimize} neq {p.eqRows.length} nle {p.leRows.length}"])
+    (s, rows ++ [delta, s!"DIMS ns {p.ns} ne {p.ne} np {p.np} nr {p.nr} ncol {p.ncol} nopt {p.countOptimize} neq {p.eqRows.length} nle {p.leRows.length}"])
   | "check" :: t :: rest =>
     let p := s.problem
-    let n := p.colIndex Var.water + 1
+    let n := p.ncol
     let vals := rest.filter (fun w => w != "X" && w != "MIN" && w != "MAX") |>.map ratOfHex
     let x := (vals.take n).toArray
     let mn := ((vals.drop n).take n).toArray
     let mx := ((vals.drop (2 * n)).take n).toArray
     let m := modelOf p x mn mx
     let tt := ratOfHex t
-    let ok := p.checkModel tt m
+    let ok := p.checkModel tt m && (p.nIso == 0 || p.checkIso tt m)
     let bad := diagnose p tt m
     let worstMb := maxAbs ((List.range p.ne).map (p.mbRes m))
     let worstCh := maxAbs ((List.range p.ns).map (p.chargeRes m))
@@ -153,6 +176,12 @@ def handle (s : PState) (line : String) : PState × List String :=
     let st := search o c
     let sh (l : List Nat) := " ".intercalate (l.map toString)
     (s, [s!"SEARCH reported {sh st.reported} | good {sh st.good} | minimal {sh st.minimal} | nbad {st.bad.length} calls {st.calls}"])
+  | "sat" :: t :: mask :: rest =>
+    let p := s.problem
+    let x := ((rest.filter (· != "X")).map ratOfHex).toArray
+    let a : Var → Rat := fun v => x.getD (p.colIndex v) 0
+    let tt := ratOfHex t
+    (s, [s!"SAT {if p.satB tt a then 1 else 0} {if p.zeroOutsideB tt (natOf mask) a then 1 else 0}"])
   | "unc" :: rest =>
     -- unc ROWS <m> <p> … DFLT <hex> … ENT e|r <id> <k> <hex>*k …
     let rec rowsOf : List String → List RowId × List String
